@@ -414,7 +414,7 @@ def run_shard(ctx):
                 ast = (ast[0], ast[1], ('par', ast[2]))
             check_valid(ctx, ast, U.render(ast, r), 'sampled 3 factors')
     # 3. random deeper nesting
-    nrand = 3000 if ctx.tier == 'quick' else 60000
+    nrand = 8000 if ctx.tier == 'quick' else 80000
     r = ctx.sub_rng('c10-rand', ctx.shard)
     for _ in range(nrand):
         ast = rand_expr(r, r.randint(0, 5), [10])
